@@ -445,9 +445,9 @@ func processOne(s *scratch, spec *propSpec, b budget, bin, sig string, cands []s
 		}
 		note := fmt.Sprintf("confirmed in a fresh process (attempt %d)", tried)
 		warmed := false
-		if hits == 0 && (isRace || stateDep) && !sameLogNoViolation {
-			// a race that depends on what earlier runs of the worker left in package-level tables or std-internal pools:
-			// re-execute those runs first, in the same process
+		if hits == 0 && !sameLogNoViolation {
+			// a race - or a wrong result - that depends on what earlier runs of the worker left in package-level tables of the
+			// library or in std-internal pools: re-execute those runs first, in the same process
 			out, code := runTool(bin, raceEnv("warm"), "replay", "-warmup", f)
 			lastOut = out
 			if strings.Contains(out, "same_class=true") && (code == 1 || code == 66) {
